@@ -752,3 +752,164 @@ Proof.
   rewrite (m64_small (h_free h)) by lia. rewrite (m64_small (h_manoff h)) by lia. rewrite (m64_small (h_nobj h)) by lia.
   reflexivity.
 Qed.
+
+Lemma R_reloaded bs h fs fs' sp : bs_ok bs = true -> R bs h fs sp -> R bs (reloaded bs h) fs' sp.
+Proof.
+  intros Hbs HR. pose proof (bs_ok_bounds bs Hbs) as [[Hb1 Hb2] Hcap]. destruct HR.
+  constructor; unfold reloaded;
+    cbn [h_ind h_others h_blk db_size db_boff h_start h_maxdb h_mansize h_alloc h_rows
+         h_fhmax h_lensz h_manoff h_nobj h_free h_loaded db_free db_objs]; try assumption; try reflexivity.
+  - apply lensz_of_ok. lia.
+  - rewrite len_app, len_zeros. lia.
+  - rewrite len_app, len_zeros. lia.
+  - eapply Forall_impl; [|exact R_live0]. intros e He. eapply entry_ok_weaken; [exact He|lia|].
+    intros. apply slice_app_l. lia.
+  - right. reflexivity.
+Qed.
+
+Lemma store_files bs h fs sp :
+  R bs h fs sp ->
+  exists nx, store h fs =
+    (set_addrs h 2048 2194,
+     mkFS (write_at (write_at (f_bytes fs) 2048 (encode_header (set_addrs h 2048 2194))) 2194
+                    (encode_dblock (h_blk (set_addrs h 2048 2194)))) nx, 2048).
+Proof.
+  intros HR. destruct HR. unfold store. destruct R_addr0 as [[-> Hn]| ->].
+  - rewrite Hn. change (2048 + HDR_SIZE) with 2194. eexists. reflexivity.
+  - eexists. reflexivity.
+Qed.
+
+Lemma step_SL_R bs h fs sp :
+  bs_ok bs = true -> R bs h fs sp ->
+  exists fs1, step cap_new bs (h, fs) SL = (reloaded bs h, fs1, OUnit) /\ R bs (reloaded bs h) fs1 sp.
+Proof.
+  intros Hbs HR. destruct (store_files bs h fs sp HR) as [nx Hs].
+  unfold step. rewrite Hs. cbn [f_bytes].
+  rewrite (load_after_store bs h fs sp (f_bytes fs) Hbs HR).
+  eexists. split. reflexivity. eapply R_reloaded; eassumption.
+Qed.
+
+(* ------------------------------------------------------------------ the refinement *)
+Definition observables (bs : N) (h : heap) (sp : spec) : Prop :=
+  (forall id d, lookup id (sp_live sp) = Some d -> get h id = Ok d)
+  /\ NoDup (map fst (sp_live sp))
+  /\ ForallOrdPairs (fun a b => disjoint_ids (fst a) (fst b) = true) (sp_live sp)
+  /\ h_nobj h = spec_count sp /\ h_free h = spec_free bs sp.
+
+Lemma entry_id_len objs vol bs e : entry_ok objs vol e -> vol <= cap_new bs -> bs <= 65536 ->
+  id_off (fst e) = eoff e /\ id_len (fst e) = elen e.
+Proof.
+  intros (A & B & C & D) Hv Hb. split. reflexivity.
+  rewrite A. apply id_len_mkid. unfold cap_new, PREFIX, CKSUM in Hv. destruct (bs <? 15 + 4); lia.
+Qed.
+
+Lemma R_observables bs h fs sp : bs_ok bs = true -> R bs h fs sp -> observables bs h sp.
+Proof.
+  intros Hbs HR. pose proof (bs_ok_bounds bs Hbs) as [[Hb1 Hb2] Hcap].
+  split; [|split; [|split; [|split]]].
+  - intros. eapply get_R; eassumption.
+  - destruct HR. clear - R_live0 R_sorted0.
+    induction R_sorted0 as [|e l S IH F]; cbn [map]. constructor.
+    inversion R_live0; subst. constructor; [|auto].
+    intros Hin. apply in_map_iff in Hin as (e' & Heq & Hin').
+    rewrite Forall_forall in F, H2. specialize (F _ Hin'). specialize (H2 _ Hin').
+    destruct H1 as (A & B & C & D). destruct H2 as (A' & B' & C' & D').
+    unfold before, eoff in F. rewrite Heq in F. unfold eoff in *. lia.
+  - destruct HR.
+    assert (Hv : sp_vol sp <= cap_new bs) by lia.
+    clear - R_live0 R_sorted0 Hv Hb2.
+    induction R_sorted0 as [|e l S IH F]. constructor.
+    inversion R_live0; subst. constructor; [|auto].
+    rewrite Forall_forall in *. intros e' Hin'. specialize (F _ Hin'). specialize (H2 _ Hin').
+    destruct (entry_id_len _ _ bs _ H1 Hv Hb2) as [E1 E2]. destruct (entry_id_len _ _ bs _ H2 Hv Hb2) as [E1' E2'].
+    unfold disjoint_ids. rewrite E1, E2, E1'. unfold before in F.
+    apply orb_true_iff. left. apply N.leb_le. assumption.
+  - destruct HR. assumption.
+  - destruct HR. assumption.
+Qed.
+
+Lemma step_refines bs h fs sp o sp' x :
+  bs_ok bs = true -> R bs h fs sp -> spec_step bs sp o = Some (sp', x) ->
+  exists h' fs', step cap_new bs (h, fs) o = (h', fs', x) /\ R bs h' fs' sp'.
+Proof.
+  intros Hbs HR Hs. destruct o as [d pick|id|id d|id|]; cbn [spec_step] in Hs.
+  - (* insert *)
+    destruct ((len d =? 0) || (MAX_OBJ <? len d)) eqn:Ebad.
+    + injection Hs as <- <-. exists h, fs. split; [|assumption].
+      unfold step, insert. apply orb_true_iff in Ebad as [E|E].
+      * rewrite E. reflexivity.
+      * rewrite E. destruct (len d =? 0); reflexivity.
+    + apply orb_false_iff in Ebad as [E1 E2]. apply N.eqb_neq in E1. apply N.ltb_ge in E2.
+      destruct (N.ltb_spec (cap_new bs) (sp_vol sp + len d)); [discriminate|].
+      injection Hs as <- <-.
+      destruct (insert_R bs h fs sp d pick Hbs HR) as (h' & Hi & HR'); try lia.
+      exists h', fs. split; [|assumption]. unfold step. rewrite Hi. reflexivity.
+  - (* get *)
+    destruct (lookup id (sp_live sp)) as [d|] eqn:El; [|discriminate]. injection Hs as <- <-.
+    exists h, fs. split; [|assumption]. unfold step. rewrite (get_R bs h fs sp id d) by assumption. reflexivity.
+  - (* overwrite *)
+    destruct (lookup id (sp_live sp)) as [old|] eqn:El; [|discriminate].
+    destruct (N.eqb_spec (len d) (len old)).
+    + injection Hs as <- <-. destruct (overwrite_R bs h fs sp id d old Hbs HR El e) as (h' & Ho & HR').
+      exists h', fs. split; [|assumption]. unfold step. rewrite Ho. reflexivity.
+    + injection Hs as <- <-. exists h, fs. split; [|assumption].
+      unfold step. rewrite (overwrite_err_R bs h fs sp id d old) by assumption. reflexivity.
+  - (* delete *)
+    destruct (lookup id (sp_live sp)) as [old|] eqn:El; [|discriminate]. injection Hs as <- <-.
+    destruct (delete_R bs h fs sp id old Hbs HR El) as (h' & Hd & HR').
+    exists h', fs. split; [|assumption]. unfold step. rewrite Hd. reflexivity.
+  - (* store + load *)
+    injection Hs as <- <-. destruct (step_SL_R bs h fs sp Hbs HR) as (fs1 & Hst & HR').
+    exists (reloaded bs h), fs1. split; assumption.
+Qed.
+
+Lemma run_refines bs hist : forall h fs sp sp' eouts,
+  bs_ok bs = true -> R bs h fs sp -> spec_run bs sp hist = Some (sp', eouts) ->
+  exists h' fs', run cap_new bs (h, fs) hist = (h', fs', eouts) /\ R bs h' fs' sp'.
+Proof.
+  induction hist as [|o r IH]; intros h fs sp sp' eouts Hbs HR Hs; cbn [spec_run run] in *.
+  - injection Hs as <- <-. exists h, fs. split; [reflexivity|assumption].
+  - destruct (spec_step bs sp o) as [[sp1 x]|] eqn:E1; [|discriminate].
+    destruct (spec_run bs sp1 r) as [[sp2 xs]|] eqn:E2; [|discriminate]. injection Hs as <- <-.
+    destruct (step_refines bs h fs sp o sp1 x Hbs HR E1) as (h1 & fs1 & Hst & HR1).
+    destruct (IH h1 fs1 sp1 sp2 xs Hbs HR1 E2) as (h2 & fs2 & Hrun & HR2).
+    exists h2, fs2. split; [|assumption]. rewrite Hst, Hrun. reflexivity.
+Qed.
+
+(* the named exclusions together say exactly that the specification is defined on the history *)
+Lemma admissible_spec_run bs hist : forall sp,
+  one_block_from bs (sp_vol sp) hist = true -> targets_live_from bs sp hist = true ->
+  exists sp' eouts, spec_run bs sp hist = Some (sp', eouts).
+Proof.
+  induction hist as [|o r IH]; intros sp H1 H2; cbn [spec_run].
+  - eexists _, _. reflexivity.
+  - cbn [targets_live_from] in H2. apply andb_true_iff in H2 as [Hok Hrest].
+    assert (Hstep : exists sp1 x, spec_step bs sp o = Some (sp1, x)
+                     /\ one_block_from bs (sp_vol sp1) r = true).
+    { destruct o as [d pick|id|id d|id|]; cbn [spec_step one_block_from] in *.
+      - destruct ((len d =? 0) || (MAX_OBJ <? len d)).
+        + eexists _, _. split; [reflexivity|assumption].
+        + apply andb_true_iff in H1 as [Hf Hr]. apply N.leb_le in Hf.
+          destruct (N.ltb_spec (cap_new bs) (sp_vol sp + len d)); [lia|].
+          eexists _, _. split; [reflexivity|assumption].
+      - destruct (lookup id (sp_live sp)); [|discriminate]. eexists _, _. split; [reflexivity|assumption].
+      - destruct (lookup id (sp_live sp)); [|discriminate].
+        destruct (len d =? len b); eexists _, _; (split; [reflexivity|assumption]).
+      - destruct (lookup id (sp_live sp)); [|discriminate]. eexists _, _. split; [reflexivity|assumption].
+      - eexists _, _. split; [reflexivity|assumption]. }
+    destruct Hstep as (sp1 & x & Es & Hob). rewrite Es in Hrest |- *.
+    destruct (IH sp1 Hob Hrest) as (sp2 & xs & Er). rewrite Er. eexists _, _. reflexivity.
+Qed.
+
+Lemma refines bs hist :
+  bs_ok bs = true -> one_block bs hist = true -> targets_live bs hist = true ->
+  exists sp eouts h fs,
+    spec_run bs spec0 hist = Some (sp, eouts)
+    /\ run cap_new bs (new_heap bs, fs0) hist = (h, fs, eouts)
+    /\ R bs h fs sp /\ observables bs h sp.
+Proof.
+  intros Hbs H1 H2. destruct (admissible_spec_run bs hist spec0 H1 H2) as (sp & eouts & Hs).
+  destruct (run_refines bs hist _ _ _ _ _ Hbs (R_new bs Hbs) Hs) as (h & fs & Hr & HR).
+  exists sp, eouts, h, fs.
+  split; [assumption|split; [assumption|split; [assumption|eapply R_observables; eassumption]]].
+Qed.
